@@ -6,7 +6,7 @@ ID = 'C17'
 HARNESSES = ['h_c01.cpp', 'h_load.cpp']
 LEVEL = 'model_checking'
 BUDGET = {'quick': 290, 'thorough': 3400}
-BOUNDS = {'quick': 'API-built content at L-1, L, L+1 and a far value for: description 255, parameter/group name 127, dimension extent 255, string length 255, int16 extremes, 7 dimensions; payload symbolic where it does not fix a loop bound. At or below L: the C01 equality; beyond L: write throws, or the saved file loads to the same content (same equality)',
+BOUNDS = {'quick': 'API-built content at L-1, L, L+1 and a far value for: description 255, parameter/group name 127, dimension extent 255, string length 255, int16 extremes, 7 dimensions, 255 points, 255 channels; payload symbolic where it does not fix a loop bound. At or below L: the C01 equality; beyond L: write throws, or the saved file loads to the same content (same equality)',
           'thorough': 'plus 255 points, 255 channels, 255 parameter blocks (API) and reference-encoded files with 32767 frames, last frame 65535, 255 parameter blocks through load -> save -> load'}
 OUTSIDE = 'more than 32767 frames through the API (hours in the interpreter); pairs of limits beyond those listed; 65535 points'
 ASSUMPTIONS = ['long texts use a fixed character (their content is not the subject, their length is)']
@@ -20,9 +20,9 @@ def jobs(tier, seed):
         for v in (L - 1, L, L + 1, L + 45, 2 * L + 2): J(kind, v)
     for v in (32766, 32767, 32768, 40000, 65535, 65536, 70000): J(5, v)
     for v in (6, 7, 8, 9): J(6, v)
+    for kind in (7, 8):
+        for v in ((255, 256) if tier == 'quick' else (254, 255, 256, 300)): J(kind, v)
     if tier == 'thorough':
-        for kind in (7, 8):
-            for v in (254, 255, 256): J(kind, v)
         for v in (250, 480, 483, 520): J(9, v)
         for nm, sh, kw in (('frames-32767', dict(P=0, C=1, sub=1, F=32767), {}), ('last-frame-65535', dict(P=1, C=0, sub=0, F=40), {'first': 65496, 'analog': 'empty'}),
                            ('blocks-255', dict(P=1, C=0, sub=0, F=1), {'analog': 'empty', 'extras': [{'name': 'BIGA', 'type': 1, 'dims': [255, 250]}, {'name': 'BIGB', 'type': 1, 'dims': [255, 255]}, {'name': 'BIGC', 'type': 1, 'dims': [10, 1]}]})):
